@@ -2,7 +2,7 @@
 """Run every sensitivity mutant in /verif/mutants (and every seeded change in
 /verif/seeded) against its check and print/record which are caught.
 
-  tools/sensitivity.py [--budget S] [--only Cxx] [--seeded]
+  tools/sensitivity.py [--budget S] [--only Cxx [--merge]]
 
 Each mutation is applied to a scratch copy of /repo/src under a fresh mkdtemp()
 outside /repo and /verif (tools/mut.sh), the check runs against it
@@ -58,8 +58,13 @@ def main():
                                            else "ERROR"),
             res["key"] or "", res["runs"], res["wall_s"]), flush=True)
     os.makedirs(os.path.join(HERE, "out"), exist_ok=True)
-    json.dump(results, open(os.path.join(HERE, "out", "sensitivity.json"), "w"),
-              indent=1)
+    outp = os.path.join(HERE, "out", "sensitivity.json")
+    if only and "--merge" in args and os.path.exists(outp):
+        # re-run of one property: replace its rows in the last full table
+        old = [r for r in json.load(open(outp)) if r["property"] != only]
+        results = sorted(old + results, key=lambda r: (r["property"],
+                                                       r["mutant"]))
+    json.dump(results, open(outp, "w"), indent=1)
     n = len(results)
     c = sum(1 for r in results if r["caught"])
     print("caught %d of %d" % (c, n))
